@@ -185,6 +185,18 @@ def structured_family():
         Func("main", [], VOID, [Decl(C("Shelter"), "sh", New("Shelter")), Echo(MCall(MCall(MCall(Var("sh"), "resident"), "get"), "name")),
                                 Decl(C("CatCage"), "cc", New("CatCage")), Expr(MCall(Var("sh"), "swap", Var("cc"))), Echo(MCall(Fld(Fld(Var("sh"), "cage"), "occupant"), "name"))])],
         [ani, felid, cat, cage2, shelter, catcage])))
+    # 14. @quantum functions returning bit / bit[] / void, used as values (array initialiser, index, argument, condition) by functions
+    #     declared before and after them
+    from bsyntax import A, Arr, Bit, Idx
+    pairf = Func("pair", [], A("bit"), [Decl(A("bit"), "r", Arr("bit", [Bit(0), Bit(1)])), Ret(Var("r"))], quantum=True)
+    onef = Func("one", [], P("bit"), [Ret(Bit(1))], quantum=True)
+    nonef = Func("none", [], VOID, [Echo(S("none"))], quantum=True)
+    out.append(("@quantum functions used before and after their declaration", Program([
+        Func("first", [], P("bit"), [Decl(A("bit"), "r", Call("pair")), Ret(Idx(Var("r"), I(1)))]),
+        Func("second", [Param(A("bit"), "xs")], P("bit"), [Ret(Idx(Var("xs"), I(0)))]),
+        pairf, onef, nonef,
+        Func("main", [], VOID, [Echo(Call("first")), Echo(Call("second", Call("pair"))), Echo(Idx(Call("pair"), I(1))), Decl(P("bit"), "b", Call("one")), Echo(Var("b")),
+                                Expr(Call("none")), Decl(A("bit"), "again", Call("pair")), Echo(Var("again"))])])))
     return out
 
 
